@@ -79,7 +79,7 @@ def main():
             for c in controls:
                 print("CONTROL %s: %s%s" % (c["control"], c["status"],
                                             (" by " + ", ".join(c["by"]) if isinstance(c.get("by"), list) else (" " + str(c.get("by") or c.get("why") or "")))))
-        rc = decide(pid, results, tier, t0, controls=controls, P=P)
+        rc = decide(pid, results, tier, t0, controls=controls, P=P, write_evidence=not a.no_evidence)
         if rc == 0 and controls:
             applied = [c for c in controls if c["status"] != "skipped"]
             if applied and all(c["status"] == "missed" for c in applied):
